@@ -360,10 +360,88 @@ func mkRenew(s renewScen) *mc.Exec {
 		}
 		if s.publish {
 			if msg := checkPublished(dir, cur, caPEM); msg != "" {
-				return errors.New(msg)
+				// (the scratch path is random: keep the message replayable)
+				return errors.New(strings.ReplaceAll(msg, dir, "<dir>"))
 			}
 		}
 		mc.Outcome(strings.Join(oc, " "))
+		return nil
+	}
+	return &mc.Exec{Body: body, Check: check}
+}
+
+// mkRenewConcurrent: Run renews a 2-minute certificate at its half-life while a
+// consumer thread calls GetX509SVID around that instant.
+func mkRenewConcurrent(sleeps []time.Duration, outcomes string) *mc.Exec {
+	var (
+		issued  []*x509.Certificate
+		gotDone int
+		errs    []string
+		src     x509svid.Source
+	)
+	body := func() {
+		n := 0
+		sp := spiffe.New(spiffe.Options{Log: newLog(), RequestSVIDFn: func(ctx context.Context, csrDER []byte) ([]*x509.Certificate, error) {
+			idx := n
+			n++
+			if idx > 0 && idx-1 < len(outcomes) && outcomes[idx-1] == 'f' {
+				return nil, errors.New("issuer down")
+			}
+			csr, err := x509.ParseCertificateRequest(csrDER)
+			if err != nil {
+				mc.Fail("bad CSR: %v", err)
+			}
+			t := epoch.Add(mc.ModelNow())
+			life := 2 * time.Minute
+			if idx > len(outcomes) {
+				life = 1000 * time.Hour
+			}
+			c := issue(csr.PublicKey, t, t.Add(life))
+			issued = append(issued, c)
+			return []*x509.Certificate{c}, nil
+		}})
+		src = sp.SVIDSource()
+		ctx, _ := mc.CtxWithCancel(context.Background())
+		mc.GoNamed("run", func() { sp.Run(ctx) })
+		mc.GoNamed("consumer", func() {
+			for _, d := range sleeps {
+				if d > 0 {
+					mc.TimeSleep(d)
+				}
+				before := len(issued)
+				sv, err := src.GetX509SVID()
+				if err != nil {
+					errs = append(errs, fmt.Sprintf("GetX509SVID returned %v after the initial fetch", err))
+				} else {
+					ok := false
+					for i, c := range issued {
+						// the most recent fetch the issuer had answered when the call began may
+						// not have been installed yet (the swap follows the issuer's answer), so
+						// the one before it is still acceptable; anything older is not
+						if sv.Certificates[0] == c && i >= before-2 {
+							ok = true
+						}
+					}
+					if !ok && before > 0 {
+						errs = append(errs, "GetX509SVID served an SVID older than the most recently fetched one")
+					}
+				}
+				gotDone++
+			}
+		})
+	}
+	check := func(e *mc.End) error {
+		if len(errs) > 0 {
+			return errors.New(errs[0])
+		}
+		if gotDone != len(sleeps) {
+			if e.ArmedBeyondHorizon > 0 && !strings.Contains(strings.Join(e.Parked(), " "), "consumer@rwmutex") {
+				mc.Outcome("cut off at horizon")
+				return nil
+			}
+			return fmt.Errorf("deadlock: a consumer's GetX509SVID never returned during a renewal; parked=%v", e.Parked())
+		}
+		mc.Outcome(fmt.Sprint(len(issued)))
 		return nil
 	}
 	return &mc.Exec{Body: body, Check: check}
@@ -500,6 +578,18 @@ func scenarios() []hx.Scenario {
 					}
 				}
 			}
+		}
+	}
+	// consumers calling GetX509SVID while renewals happen (race mode): they must
+	// always return, with the SVID served before or after the renewal
+	for _, sleeps := range [][]time.Duration{{59 * time.Second, time.Second}, {60 * time.Second}, {60 * time.Second, 0, 0}, {30 * time.Second, 30 * time.Second, 10 * time.Second}} {
+		for _, o := range []string{"o", "fo"} {
+			sl, oc := sleeps, o
+			out = append(out, hx.Scenario{
+				Name: fmt.Sprintf("renew-concurrent getter sleeps=%v outcomes=%q", sl, oc), Class: "spiffe/renewal-with-consumers",
+				Opts: mc.Options{Bound: 2, TieCost: 1, AutoClock: true, Horizon: 4 * time.Minute, MaxSteps: 20000, Epoch: epoch},
+				Mk:   func() *mc.Exec { return mkRenewConcurrent(sl, oc) },
+			})
 		}
 	}
 	// publication
